@@ -169,6 +169,22 @@ def runtime_battery():
                                                        ("in", "D", 1, 0), ("out", "Y", 8)],
                   default_answer=[1], note="four X inputs, then C with X"),
          ]
+    # fourth round: `C` after a bits(k, ..) entry (the column is k further on), and signal lists that are longer than
+    # the header (unused pins before, between and after the named ones) under clocked and X rows
+    S2 = [("in", "A", 1, 0), ("in", "B", 1, 0), ("in", "CLK", 1, 0), ("out", "Y", 8)]
+    for src in ("A B Y\nbits(2,1) C\n", "A B CLK Y\nbits(2,1) 0 C\n", "A Y B\nbits(1,1) C 0\n", "Y A B\nC bits(2,1)\n",
+                "A B CLK Y\nbits(3,1) C\n", "A B CLK Y\nbits(2,2) C 1\nbits(2,2) C X\n", "A CLK Y\nbits(1,0) C X\nrepeat(2) bits(1,n) C (n)\n"):
+        b.append(Scenario(src, S2, default_answer=[0], max_rows=20, note="C after bits(): accepted only in an input column, then runs"))
+    S3 = [("out", "U0", 4), ("in", "P0", 2, 0), ("in", "CLK", 1, 0), ("out", "U1", 4), ("in", "A", 1, 0), ("out", "Y", 8),
+          ("bidir", "D", 4, "Z"), ("out", "U2", 1), ("in", "P1", 3, 5)]
+    for src in ("CLK A Y\nC 0 1\nC X X\n", "Y CLK\n1 C\nX C\n", "CLK\nC\nC\n", "A CLK Y D D_out\nX C 1 Z 2\n1 C X 3 X\n",
+                "Y\n1\n", "CLK Y U2\nC 1 0\n", "U2 CLK\n1 C\n"):
+        b.append(Scenario(src, S3, default_answer=[0, 0, 0, 0, 0], max_rows=40,
+                          note="signal list longer than the header (unused pins around the named ones), clocked / X rows"))
+    b.append(Scenario("CLK Y\nC 1\n", [("in", "CLK", 1, 0), ("out", "Y", 8), ("out", "Q", 8)], default_answer=[0, 0],
+                      note="one more output than header columns"))
+    b.append(Scenario("CLK\nC\n", [("in", "CLK", 1, 0), ("out", "Y", 8), ("out", "Q", 8), ("out", "R", 8)], default_answer=[0, 0, 0],
+                      note="outputs only beyond the header"))
     return b
 
 
@@ -274,6 +290,26 @@ def expansion_no_panic(O):
     from . import C05, dri
     lay = C05.Layout("three inputs", ["in", "in", "in"], [2, 0, 1])
     C05.run_layout(O, lay, 10, in_kinds=("Number", "X"), rep=dri.Rep({"family": "runtime"}, runtime_battery(), runtime_judge))
+
+
+@obligation("C10/expansion-no-panic[signal list longer than the header]", profiles=("dev",),
+            desc="get_row sequences for a clocked / X / plain row under a header `in exp` while the signal list also holds an "
+                 "input and two outputs the header does not name (positions in the signal list beyond the number of header "
+                 "columns): no index into the row's entries leaves its bounds, nothing panics")
+def expansion_no_panic_hidden(O):
+    from . import C05, dri
+    lay = C05.Layout("in exp, an omitted input between them and two unnamed outputs behind", ["in", "exp"], [0, 2],
+                     hidden_in_at=(1,), hidden_exp=2)
+    C05.run_layout(O, lay, 8, rep=dri.Rep({"family": "runtime"}, runtime_battery(), runtime_judge))
+
+
+@obligation("C10/clock-only-in-input-columns", profiles=("dev",),
+            desc="the invariant behind the unreachable!() arms of the row generators: parse_data_row records a `C` under the "
+                 "header name of the very column it stands in (after bits(k, ..): k columns further), so binding rejects every "
+                 "`C` that is not under an input-capable signal")
+def clock_only_in_inputs(O):
+    from . import C11, dri
+    C11.clock_column_core(O, dri.Rep({"family": "runtime"}, runtime_battery(), runtime_judge))
 
 
 @obligation("C10/frame-discipline", profiles=("dev",),
